@@ -54,9 +54,10 @@ SPEC = dict(
     timeout={'quick': 1200, 'thorough': 10800},
     assumptions=_COMMON + ['oracle = libquadmath (113-bit) evaluated at the exactly converted float/double argument',
                            'signed-zero conventions ON the cuts and values at poles are not judged (the real-argument variants on their cuts are judged by component magnitudes only); long double builds are not covered',
-                           'argument moduli span the normal range of the type (1e-307..1.6e308, float 3e-38..3e38), results are judged up to the largest finite value; subnormal arguments are not drawn, and '
-                           'arguments whose modulus is itself not representable (both components within a factor sqrt 2 of MAX) only for the arithmetic group and for pow / pow_real: the inverse trigonometric / hyperbolic '
-                           'fallbacks were observed to overflow there (hypot(x +- 1, y)), which is recorded as a limit, not judged',
+                           'argument moduli span the normal range of the type (1e-307..1.6e308, float 3e-38..3e38; inverse families 1e-307..1.78e308, float 1e-37..3.39e38), results are judged up to the largest finite value; '
+                           'subnormal arguments are not drawn; arguments whose modulus is itself not representable (both components within a factor two of MAX) are drawn for the arithmetic group, pow / pow_real '
+                           'and, since the large-argument repair of the fallbacks, for the inverse trigonometric / hyperbolic families too',
+                           'compositions (z*s)/s, (z/s)*s, inv(inv z) are judged only when the intermediate value is representable with full precision',
                            'exponential-family functions get one sample in ten with a component within (-2, +0.4) of ln(MAX); small lattice points (0, +-1, +-2, +-1/2, +-3 in both components) one sample in 24',
                            'K = 16 / 64 are calibrated head-room constants (worst observed ratios are reported per function under worst_observed)'],
     level_text='Differential testing of every complex operation against a 113-bit oracle with a conditioning-aware norm-wise bound, repeated in every build '
